@@ -1,3 +1,4 @@
+import GramModel.Lemmas.EventTracesPin
 import GramModel.Lemmas.DeBruijn
 import GramModel.Check
 import GramModel.Oracle
@@ -608,3 +609,21 @@ example : Conv [] (.letg (.cons 1 .int (.lit 5) .nil) (.bin .sum (.var 1 0) (.li
     rfl).1
 
 end WholeContext
+
+/-! ## Where the Rust pushes and pops, read off the sources on every run -/
+
+/-- In every arm of `type_check_rec` and in the binder arms of `unify` (tables regenerated from `type_checker.rs` / `unifier.rs`
+by `extract/arms.py`), the typing and the definitions context are pushed and popped in LIFO order and every push has its
+pop — on the straight-line path, which is the only path: the arms have no early return (`C18_push_pop_paired` is the
+same statement about the model).  The groups of `type_check_rec` restore their contexts through a scope guard. -/
+def C18_contexts_balanced_tie_stmt : Prop := contextsBalanced Generated.eventTraces = true
+theorem C18_contexts_balanced_tie : C18_contexts_balanced_tie_stmt := by
+  unfold C18_contexts_balanced_tie_stmt; decide +kernel
+
+/-- The calls that matter in each of these arms — which child is checked when, what is unified with what, where the two
+contexts are pushed and popped, which `open` / `unsigned_shift` is applied with which arguments (the cutoff
+`definitions.len()` of the group type, the `index + 1 - offset` of a variable's type) — are, in order, the ones the
+store-layer model was written from. -/
+def C18_checker_event_traces_tie_stmt : Prop := Generated.eventTraces = expectedEventTraces
+theorem C18_checker_event_traces_tie : C18_checker_event_traces_tie_stmt := by
+  unfold C18_checker_event_traces_tie_stmt; decide +kernel
